@@ -95,6 +95,9 @@ type Sched struct {
 	Quantum  time.Duration
 	Deadlock bool
 	last     *thread
+	// NoAdopt: goroutines the code under test spawns itself run freely (their operations are not
+	// scheduling points); only the harness threads are scheduled
+	NoAdopt atomic.Bool
 }
 
 var cur atomic.Pointer[Sched]
@@ -137,6 +140,10 @@ func Point(op int, kind int, st *LockState, addr unsafe.Pointer) {
 	g := goid()
 	th := s.lookup(g)
 	if th == nil {
+		if s.NoAdopt.Load() {
+			raceEnable()
+			return
+		}
 		// a goroutine the code under test spawned itself: adopt it
 		th = s.claim()
 		th.gid.Store(g)
